@@ -423,7 +423,7 @@ def rule_erase_shortcut(ctx: Ctx) -> RuleResult:
     the test that enables the shortcut must exclude every style flag _attrspec_to_escape() can emit, except the
     ones that only change how a glyph looks (table above).  The flag set is read from _attrspec_to_escape()."""
     p = ctx.p
-    rr = RuleResult("TAB", "C04.12", "the erase-to-end-of-line shortcut is disabled for every style that is drawn on blank cells (all style flags of _attrspec_to_escape except glyph-only ones)", floor=2)
+    rr = RuleResult("TAB", "C04.12", "the erase-to-end-of-line shortcut is disabled for every style that is drawn on blank cells (all style flags of _attrspec_to_escape except glyph-only ones); its helpers resolve an AttrSpec object to itself", floor=3)
     ds = p.func("urwid.display._raw_display_base.Screen.draw_screen")
     esc = p.func("urwid.display._raw_display_base.Screen._attrspec_to_escape")
     prm = [x for x in esc.params if x != esc.self_name][0]
@@ -457,6 +457,21 @@ def rule_erase_shortcut(ctx: Ctx) -> RuleResult:
                 elif isinstance(c, ast.Attribute):
                     read.add(c.attr)
         rr.inst("shortcut guard", True, {"guard": [norm(t.ast, 90) for t in tests], "flags_tested": sorted(read & flags)})
+        # the helpers of the guard resolve the canvas attribute like attr_to_escape() does: a palette name through the
+        # palette, an AttrSpec object used directly *as itself* - a lookup `table.get(a, <default>)` must fall back on
+        # `a`, not on another entry (the object would be taken for plain and its underline / standout erased)
+        for t in tests:
+            for c in ast.walk(t.ast):
+                if not (isinstance(c, ast.Call) and isinstance(c.func, ast.Name) and c.func.id in nested):
+                    continue
+                g = nested[c.func.id]
+                gp = g.params[0] if g.params else None
+                for lk in [x for x in g.own_nodes() if isinstance(x, ast.Call) and isinstance(x.func, ast.Attribute) and x.func.attr == "get" and "_pal_" in ast.unparse(x.func.value) and x.args and isinstance(x.args[0], ast.Name) and x.args[0].id == gp]:
+                    dflt = lk.args[1] if len(lk.args) > 1 else None
+                    same = isinstance(dflt, ast.Name) and dflt.id == gp
+                    rr.inst(f"{g.name}: attribute objects resolve to themselves", True, {"lookup": norm(lk, 70), "falls_back_on_the_attribute_itself": same})
+                    if not same:
+                        rr.add(finding("TAB", g, lk, f"`{norm(lk, 70)}` resolves an attribute that is not a palette name to `{ast.unparse(dflt) if dflt is not None else None}` instead of to itself: an AttrSpec object used directly as canvas attribute (attr_to_escape() draws it as such) is taken for plain here, the trailing blanks of an underlined / standout run are replaced by ESC[K and lose the decoration", construct=f"{g.name}: AttrSpec object not resolved to itself"))
         for f in sorted(need - read):
             rr.add(finding("TAB", ds, st.stmt, f"the erase-to-end-of-line shortcut is taken for attributes with `{f}` set: ESC[K fills the trailing blanks with the background colour only, so the {f} decoration the canvas shows on those cells is missing from the terminal (a full repaint would draw it)", construct=f"erase shortcut not disabled for {f}"))
     return rr
@@ -559,6 +574,7 @@ def run(ctx: Ctx):
 _RW = "urwid/display/_raw_display_base.py"
 _HT = "urwid/display/html_fragment.py"
 MUTANTS = [
+    Mut("el-shortcut-attrspec-object-taken-for-default", "urwid/display/_raw_display_base.py", "urwid.display._raw_display_base.Screen.draw_screen", "            a = self._pal_attrspec.get(a, a)\n", "            a = self._pal_attrspec.get(a, self._pal_attrspec[None])\n", "TAB|display._raw_display_base.Screen.draw_screen.<locals>.using_standout_or_underline|using_standout_or_underline: AttrSpec object not resolved to itself"),
     Mut("html-ignores-charset-flag", _HT, "HtmlGenerator.draw_screen", "            for a, cs, run in row:\n                t_run = run.decode(get_encoding())\n                if cs == \"0\":\n                    t_run = t_run.translate(_dec_special_table)\n", "            for a, _cs, run in row:\n                t_run = run.decode(get_encoding())\n", "TRIPLE|display.html_fragment.HtmlGenerator.draw_screen"),
     Mut("record-overwrites-resize-reset", _RW, "urwid.display._raw_display_base.Screen.draw_screen", "        if self._resized:\n            # the size changed while writing: what the terminal shows now is unknown, repaint completely next time\n            return\n\n        self.screen_buf = sb", "        self.screen_buf = sb", "INV|display._raw_display_base.Screen.draw_screen|no _resized test between the write and the screen_buf record"),
     Mut("last-row-single-character", _RW, "urwid.display._raw_display_base.Screen._last_row", "            if len(row) < 2:\n                # a single character fills the whole row: there is no Y to slide in\n                return row, 0, None\n", "", "GUARD|display._raw_display_base.Screen._last_row"),
